@@ -385,6 +385,7 @@ class ImplWorld:
                 ecb_f = self.mkcb(ctx, "end", ecb, hk["e"], holder)
                 ccb_f = self.mkcb(ctx, "cancel", ccb, hk["c"], holder)
                 a = (1, 2, 3) if bad == "1" else (7,)
+                a = {0: a, 1: list(a), 2: iter(a)}[len(self.pools) % 3]     # any iterable, also a one-shot iterator
                 if len(self.pools) % 2:     # every other SimpleTaskPool is constructed with positional arguments
                     pool = SimpleTaskPool(f, a, {"k": 1}, ecb_f, ccb_f, ps, name)
                 else:
@@ -439,6 +440,9 @@ class ImplWorld:
                 ecb_f = self.mkcb(ctx, "end", ecb, hk["e"], holder)
                 ccb_f = self.mkcb(ctx, "cancel", ccb, hk["c"], holder)
                 ctx.ncalls = getattr(ctx, "ncalls", 0) + 1
+                # `args` is any iterable: a tuple, a list, or (every third request) a one-shot iterator - each of the `num`
+                # invocations is to get the same arguments all the same
+                args = {0: args, 1: list(args), 2: iter(args)}[ctx.ncalls % 3]
                 if ctx.ncalls % 2:          # every other request passes everything by position, in signature order
                     name = p.apply(f, args, {"k": 1}, int(num), None if g == "-" else g, ecb_f, ccb_f)
                 else:
